@@ -2,7 +2,7 @@
    The theorems are about the abstract resource model of TmpModel.v (the semantics of the `tempfile`
    crate and of Drop during unwinding are that model's definitions, observed at run time by the
    harness); C15_listing_oracle states what the extracted oracle tmp_ok accepts. *)
-From BedV Require Import Base AlgebraModel ExtSortModel TmpModel TmpProofs.
+From BedV Require Import Base AlgebraModel ExtSortModel TmpModel TmpProofs TmpOracleProofs.
 
 Theorem C15_restored : forall e0 d script,
   ~ In d e0 -> forallb (fun e => negb (is_build e)) script = true -> In TDropSorter script ->
@@ -27,6 +27,16 @@ Theorem C15_open_files_oracle : forall cfg opens, tmp_open_ok cfg opens = true -
   forall l p, In l opens -> In p l -> exists rest, p = cfg ++ [47] ++ rest.
 Proof. exact tmp_open_ok_spec. Qed.
 Print Assumptions C15_open_files_oracle.
+
+(* consistency of model and oracle: every lifetime of the abstract protocol, seen through recursive listings (entries of the
+   configured directory as paths under it, anything else around it unchanged), is accepted by the listing oracle *)
+Theorem C15_oracle_accepts_model : forall cfg outside e0 d script,
+  ~ In d e0 -> forallb (fun e => negb (is_build e)) script = true -> In TDropSorter script ->
+  tmp_ok cfg (listing cfg outside e0)
+         (map (fun s => listing cfg outside (t_entries s)) (ttrace (mkT e0 None 0) (TBuild d :: script)))
+         (listing cfg outside (t_entries (trun (mkT e0 None 0) (TBuild d :: script)))) = true.
+Proof. exact tmp_ok_accepts_model. Qed.
+Print Assumptions C15_oracle_accepts_model.
 
 (* "c" = configured directory, "o" = where TMPDIR points; ".t" = the sorter's own directory *)
 Example C15_nonvacuous :
